@@ -75,7 +75,10 @@ CHECKS.update({
         'Theorems C06_* state per convention which coordinates form the polygon at each position, when a cell has none and '
         'what synthesised bounds are.  Per run the model computes every polygon exactly (rationals) from the generated '
         'coordinates and the implementation\'s polygons, mask, InvalidPolygonWarning, bounds and geometry are compared with '
-        'it, with coordinate / bounds variables held as coordinates and as plain variables.',
+        'it, with coordinate / bounds variables held as coordinates and as plain variables.  C06_cf2d/cf1d_bounds_accepted_iff, '
+        '_refused_bounds_ignored, _accepted_bounds_used: a stored bounds variable is used exactly when it is laid out (y, x, 4) / '
+        '(axis, 2), per coordinate; in any other layout it plays no part (never a transposed reading of the numbers); the '
+        'model takes the stored layout and decides itself, datasets with refused layouts are generated in every run.',
         'Trusted: Coq kernel; model Polygons.v; ring_simple is an executable specification of shapely.is_valid validated per '
         'case; unary_union is GEOS (geometry compared with the union of the polygons by shapely.equals).',
         'DESIGN.md section 4 C06'),
@@ -161,8 +164,11 @@ CHECKS.update({
         'of every convention are written (fill values none / -999 / 0, float or packed int16), reopened, saved through '
         'dataset.ems.to_netcdf (time encoded as read, with an integer dtype that forces xarray to re-base, or overridden by '
         'the caller) and reopened: convention, polygons, every value, every instant, raw _FillValue / missing_value attributes '
-        'and the units string.',
-        'Trusted: Coq kernel; model TimeUnits.v.  PARTIAL: calendar arithmetic (cftime, datetime), the netCDF write/read and '
+        'and the units string; the time axis carries no bounds, bounds inheriting its units, or bounds with units of their '
+        'own.  C17_time_coordinate_* (model TimeCoord.v of Convention.time_coordinate): the variable taken for the time '
+        'coordinate is the first decoded time variable that is not the bounds of another variable, wherever the bounds are '
+        'listed (the _refuted witness documents the defect repaired in 171c774); compared per run with the implementation.',
+        'Trusted: Coq kernel; models TimeUnits.v, TimeCoord.v.  PARTIAL: calendar arithmetic (cftime, datetime), the netCDF write/read and '
         'xarray\'s CF encoding are not modelled - the file round trip is established per run only.  parse_zone is a model of '
         'cftime\'s zone-designator reading validated by probing and by the per-run re-read.',
         'DESIGN.md section 4 C17'),
